@@ -15,6 +15,7 @@ import (
 	logslog "log/slog"
 	"os"
 	"os/exec"
+	"path/filepath"
 	"strings"
 	"time"
 	_ "time/tzdata" // the probes choose their zone with TZ: no zone database is needed on the machine
@@ -59,6 +60,33 @@ func envProbe(r *run, testFlavour bool, probe string, changes ...string) {
 	}
 	cmd.Env = env
 	before := len(r.violations)
+	if probe == "fullstdout" {
+		// the child's standard output is a device that refuses every write
+		full, ferr := os.OpenFile("/dev/full", os.O_WRONLY, 0)
+		if ferr != nil {
+			return
+		}
+		defer full.Close()
+		rep := filepath.Join(r.dir, "probe-fullstdout.txt")
+		os.Remove(rep)
+		cmd.Env = append(cmd.Env, "VERIF_PROBE_OUT="+rep)
+		cmd.Stdout, cmd.Stderr = full, nil
+		runErr := cmd.Run()
+		b, _ := os.ReadFile(rep)
+		for _, line := range strings.Split(string(b), "\n") {
+			if strings.HasPrefix(line, "VIOL\t") {
+				var v violation
+				if json.Unmarshal([]byte(line[5:]), &v) == nil {
+					r.violate(v)
+				}
+			}
+		}
+		r.seen("envprobe|" + probe)
+		if runErr != nil && len(r.violations) == before {
+			r.violate(violation{What: "a fresh process whose standard output refuses writes ended abnormally: " + runErr.Error(), Input: map[string]any{"probe": probe}})
+		}
+		return
+	}
 	err := r.mergeChild(cmd)
 	r.seen("envprobe|" + probe + "|" + strings.Join(changes, " "))
 	if err != nil && len(r.violations) == before {
@@ -80,7 +108,18 @@ func slogRecord(t time.Time, msg string) logslog.Record {
 }
 
 func envProbeChild(a []string) {
-	w := bufio.NewWriter(os.Stdout)
+	var w *bufio.Writer
+	if f := os.Getenv("VERIF_PROBE_OUT"); f != "" {
+		// the probe's own stdout is part of the scenario (it refuses writes): report through a file
+		out, err := os.Create(f)
+		if err != nil {
+			os.Exit(5)
+		}
+		defer out.Close()
+		w = bufio.NewWriter(out)
+	} else {
+		w = bufio.NewWriter(os.Stdout)
+	}
 	defer w.Flush()
 	probe, envDesc := "", ""
 	if len(a) > 0 {
@@ -280,6 +319,45 @@ func envProbeChild(a []string) {
 					}
 				}
 			}
+		}
+	case "paths": // C18: a mapping registered before the process ever looked at a path
+		slog.AddKnownPathMapping("/srv/customers/acme-corp", "~acme")
+		slog.AddKnownPathMapping("/opt/build/ws-7f3a", "~ws")
+		home, _ := slog.VerifHomeCwd()
+		for p, want := range map[string]string{"/srv/customers/acme-corp/billing/invoice.go": "~acme/billing/invoice.go", "/opt/build/ws-7f3a/src/app/main.go": "~ws/src/app/main.go", home + "/proj/cmd/main.go": "~/proj/cmd/main.go"} {
+			if home == "" && strings.HasPrefix(want, "~/") {
+				continue
+			}
+			if got := slog.Safety(p); got != want {
+				viol("a path under a registered mapping is reported with that directory prefix", map[string]any{"history": "AddKnownPathMapping(\"/srv/customers/acme-corp\", \"~acme\"); AddKnownPathMapping(\"/opt/build/ws-7f3a\", \"~ws\") as the first calls of the process", "path": p}, want, got)
+			}
+		}
+		if got := slog.SafetyFiles([]string{"/srv/customers/acme-corp/a.go"}); len(got) != 1 || got[0] != "~acme/a.go" {
+			viol("a path under a registered mapping is reported with that directory prefix (SafetyFiles)", map[string]any{"path": "/srv/customers/acme-corp/a.go"}, "~acme/a.go", fmt.Sprint(got))
+		}
+	case "fullstdout": // C13: the process's standard output refuses writes, and the logger is configured after its first record
+		l := slog.New("early").SetLevel(slog.InfoLevel).SetColorMode(false)
+		l.Info("a line before the logger has destinations of its own") // goes to the package default: fails
+		errlog, good := &recorder{}, &recorder{}
+		l.SetErrorWriter(errlog)
+		l.SetWriter(&brokenW{}).AddWriter(good)
+		l.Info("after-the-configuration.")
+		if msg := wholeOnce(good.take(), "after-the-configuration."); msg != "" {
+			viol("a healthy destination next to a failing one did not receive the record once: "+msg, nil, nil, nil)
+		}
+		diag := 0
+		for _, p := range errlog.take() {
+			if strings.Contains(string(p), "failed") {
+				diag++
+			}
+		}
+		if diag != 1 {
+			viol("the diagnostic for a failing destination was not sent (once) to the warning destinations of the logger", map[string]any{"history": "standard output refuses writes; l := New(…); l.Info(…) before any writer call; l.SetErrorWriter(e); l.SetWriter(broken).AddWriter(good); l.Info(…)"}, 1, diag)
+		}
+		l.SetWriter(good)
+		l.Info("recovered.")
+		if msg := wholeOnce(good.take(), "recovered."); msg != "" || len(errlog.take()) != 0 {
+			viol("after the failing destination was replaced records are not delivered normally", nil, nil, msg)
 		}
 	case "states": // C01: the application installs its own states holder; debug mode is what the is package says it is
 		rc := &recorder{}
